@@ -145,10 +145,9 @@ NextNon(f)   == [f |-> f, k |-> nnon[f] + 1]
 (* issuer.OfferCredential: createOffer stores the flow and the             *)
 (* pre-authorized code, then sends the offer to the wallet of the subject. *)
 (***************************************************************************)
-Offer ==
+OfferTo(s) ==
     /\ nflows < MaxOffers
     /\ LET f == FlowSeq[nflows + 1]
-           s == SubjSeq[nflows + 1]
            o == [to |-> s, iss |-> "I", code |-> f, typ |-> "T1"] IN
        /\ nflows' = nflows + 1
        /\ flows' = [flows EXCEPT ![f] = [subj |-> s, exp |-> now + TTL, st |-> "live"]]
@@ -158,6 +157,8 @@ Offer ==
        /\ Log([a |-> "Offer", f |-> f, subj |-> s])
     /\ UNCHANGED <<off, now, toks, nons, ntok, nnon, tr, w, wruns, handled, stored, ktoks, knons, kproofs, acreds, asteps,
                    minted, issuedN, releases, redeemed, panics, cover>>
+
+Offer == OfferTo(SubjSeq[nflows + 1])
 
 (***************************************************************************)
 (* holder.HandleCredentialOffer: offer checks, issuer metadata.            *)
@@ -256,8 +257,8 @@ CredOutcome(t, p, rtyp) ==
 
 \* the part of the step that changes the issuer: by = who receives the response
 ProofPassed(out) == out \in {"invalid_request", "released"}
+\* (out is CredOutcome(t, p, rtyp); it is a parameter so that trace validation can also apply an OBSERVED outcome)
 IssuerCred(t, p, rtyp, by, out) ==
-    /\ out = CredOutcome(t, p, rtyp)
     /\ out = "invalid_proof_n" => nnon[t.f] < MaxNonce
     /\ nons' = IF out = "invalid_proof_n" THEN nons \cup {[id |-> NextNon(t.f), exp |-> now + TTL]}
                ELSE IF ProofPassed(out) /\ NonceSingleUse /\ p # NoProof THEN {e \in nons : e.id # p.non}
@@ -289,12 +290,12 @@ HolderAccepts(c, otyp) == /\ c # NoCred
                           /\ HolderChecksSubject => c.subj = "W"
 
 \* the honest wallet requests the credential from the honest issuer; obs: the attacker learns the served request
-WCred(lost) ==
+WProof == Proof("W", TRUE, "I", TRUE, w.non)
+WCredO(lost, out) ==
     /\ w.pc = "cred" /\ w.o.iss = "I"
     /\ lost => DropAllowed
     /\ LET obs == LeakRequest
-           p == Proof("W", TRUE, "I", TRUE, w.non)
-           out == CredOutcome(w.tok, p, w.o.typ)
+           p == WProof
            c == IF out = "released" /\ ~lost THEN Released(w.tok) ELSE NoCred IN
        /\ IssuerCred(w.tok, p, w.o.typ, "W", out)
        /\ stored' = IF HolderAccepts(c, w.o.typ) THEN stored \cup {StoredRec(c, w.o.typ)} ELSE stored
@@ -306,6 +307,7 @@ WCred(lost) ==
                newnon |-> NewNon(w.tok, out), stores |-> HolderAccepts(c, w.o.typ)])
     /\ w' = IdleW
     /\ UNCHANGED <<off, now, nflows, codes, ntok, tr, offers, wruns, handled, kcodes, acreds, asteps, minted, redeemed>>
+WCred(lost) == WCredO(lost, CredOutcome(w.tok, WProof, w.o.typ))
 
 (***************************************************************************)
 (* The attacker calls the credential endpoint: with a proof he makes       *)
@@ -322,16 +324,16 @@ Made(shape, n) ==
       [] shape = "nonstr"    -> Proof("A", TRUE, "I", TRUE, NonStr)
 ShapeTyp(shape) == IF shape = "wrongtype" THEN "T2" ELSE "T1"
 
-AttackerRequest(t, p, rtyp, rec) ==
+AttackerRequestO(t, p, rtyp, rec, out) ==
     /\ asteps < MaxAtt /\ asteps' = asteps + 1
-    /\ LET out == CredOutcome(t, p, rtyp) IN
-       /\ IssuerCred(t, p, rtyp, "A", out)
+    /\ /\ IssuerCred(t, p, rtyp, "A", out)
        /\ acreds' = IF out = "released" THEN acreds \cup {t.f} ELSE acreds
        /\ knons' = IF out = "invalid_proof_n" THEN knons \cup {NextNon(t.f)} ELSE knons
        /\ Cover(<<"acred", rec.shape, out, IF TokLive(t) THEN Subj(t.f) ELSE "none", IF NonLive(p.non) THEN Subj(p.non.f) ELSE "none">>)
        /\ Log([a |-> "ACred", tok |-> t, proof |-> p, rtyp |-> rtyp, shape |-> rec.shape, out |-> out,
                newnon |-> NewNon(t, out)])
     /\ UNCHANGED <<off, now, nflows, codes, ntok, tr, offers, w, wruns, handled, stored, kcodes, ktoks, kproofs, minted, redeemed>>
+AttackerRequest(t, p, rtyp, rec) == AttackerRequestO(t, p, rtyp, rec, CredOutcome(t, p, rtyp))
 
 ACred(t, shape, n) ==
     /\ t \in ktoks \cup {JunkId}
@@ -349,10 +351,8 @@ AReplay(t, p) ==
 (* The attacker sends "W" an offer of his own making: naming the honest    *)
 (* issuer with a code he knows (or junk), or naming his rogue issuer "X".  *)
 (***************************************************************************)
-Forge(iss, c, typ) ==
+ForgeDo(iss, c, typ) ==
     /\ asteps < MaxAtt /\ asteps' = asteps + 1
-    /\ iss \in {"I", "X"} /\ (iss = "X" => RogueIssuer /\ c = "junk")
-    /\ c \in kcodes \cup {"junk"} /\ typ \in {"T1", "T2"}
     /\ LET o == [to |-> "W", iss |-> iss, code |-> c, typ |-> typ] IN
        /\ o \notin offers
        /\ offers' = offers \cup {o}
@@ -360,14 +360,20 @@ Forge(iss, c, typ) ==
     /\ UNCHANGED <<off, now, nflows, flows, codes, toks, nons, ntok, nnon, tr, w, wruns, handled, stored,
                    kcodes, ktoks, knons, kproofs, acreds, minted, issuedN, releases, redeemed, panics, cover>>
 
+Forge(iss, c, typ) ==
+    /\ iss \in {"I", "X"} /\ (iss = "X" => RogueIssuer /\ c = "junk")
+    /\ c \in kcodes \cup {"junk"} /\ typ \in {"T1", "T2"}
+    /\ ForgeDo(iss, c, typ)
+
 \* "W" asks the rogue issuer for a token: the attacker answers with a c_nonce of his choice
-WTokX(n) ==
+WTokXDo(n) ==
     /\ w.pc = "token" /\ w.o.iss = "X"
-    /\ n \in knons \cup {JunkId}
     /\ w' = [w EXCEPT !.pc = "cred", !.tok = JunkId, !.non = n]
     /\ Log([a |-> "WTokX", non |-> n])
     /\ UNCHANGED <<off, now, nflows, flows, codes, toks, nons, ntok, nnon, tr, offers, wruns, handled, stored,
                    kcodes, ktoks, knons, kproofs, acreds, asteps, minted, issuedN, releases, redeemed, panics, cover>>
+
+WTokX(n) == n \in knons \cup {JunkId} /\ WTokXDo(n)
 
 \* "W" sends its proof (audience = "X") to the rogue issuer, which answers with a credential of its choice
 WCredX(c) ==
